@@ -2,6 +2,7 @@
    about the numeric toolkit, and the tier-A obligations `Gen = Model` of the two translated window functions. -/
 import IbicusModel.Props.C03
 import IbicusModel.Lemmas.GenDebWin
+import IbicusModel.Props.Capstone
 -- property theorems (per window)
 #print axioms Props.C03.ls_add_fixed_point
 #print axioms Props.C03.ls_mult_fixed_point
@@ -82,3 +83,15 @@ import IbicusModel.Lemmas.GenDebWin
 #print axioms Lemmas.GenDebWin.sdm_absolute_denote
 #print axioms Lemmas.GenDebWin.cdft_steps_denote
 #print axioms Lemmas.GenDebWin.cdft_steps_denote_methods
+-- capstone: C03 on the composition of the regenerated pieces (Props/Capstone.lean; the `_eq_model` theorems they rest on are listed in Audit/C02.lean)
+#print axioms Props.Capstone.regenApplyLocation_LS_fixed_point
+#print axioms Props.Capstone.regenApplyLocation_LS_fixed_point_mult
+#print axioms Props.Capstone.regenApplyLocation_DC_identity
+#print axioms Props.Capstone.regenApplyLocation_DC_identity_mult
+#print axioms Props.Capstone.regenApplyLocation_ECDFM_fixed_point
+#print axioms Props.Capstone.regenApplyLocation_QM_fixed_point
+#print axioms Props.Capstone.regenApplyLocation_CDFt_fixed_point
+#print axioms Props.Capstone.regenApplyLocation_CDFt_fixed_point_ssr
+#print axioms Props.Capstone.regenApplyLocation_QDM_fixed_point
+#print axioms Props.Capstone.regenApplyLocation_CDFt_years_fixed_point
+#print axioms Props.Capstone.regenApplyLocation_QDM_years_fixed_point
